@@ -415,6 +415,32 @@ theorem wfGo_append (a b : List Bp) (c : Nat) (stk : List Nat) :
         · exact ih _ _
         · rfl
 
+theorem nReal_map_copy (ours : ParamMap) (bp : List Bp) : nReal (bp.map (copyItem ours)) = nReal bp := by
+  induction bp with
+  | nil => rfl
+  | cons x xs ih => cases x <;> simp [copyItem, nReal, ih]
+
+/-- substituting parameter mappings in nested start labels keeps a blueprint a blueprint -/
+theorem blueprint_map_copy (ours : ParamMap) {bp : List Bp} (h : Blueprint bp) : Blueprint (bp.map (copyItem ours)) := by
+  induction h with
+  | nil => exact .nil
+  | op i => exact .op i
+  | lbl => exact .lbl
+  | app _ _ iha ihb => rw [List.map_append]; exact .app iha ihb
+  | @call pm bp _ ih =>
+    have : (buildOut pm bp).map (copyItem ours) = buildOut (replaceParams pm ours) (bp.map (copyItem ours)) := by
+      simp [buildOut, copyItem, nReal_map_copy]
+    rw [this]
+    exact .call _ ih
+
+/-- **what `build` returns is a blueprint again** (start label with `n + 1`, the copied items with substituted
+mappings, end label), with the same number of real items: the class `Blueprint` is closed under macro expansion. -/
+theorem buildItems_blueprint (m : MacroIn) {bp : List Bp} (h : Blueprint bp) :
+    Blueprint (buildItems m bp) ∧ nReal (buildItems m bp) = nReal bp := by
+  refine ⟨.call _ (blueprint_map_copy m.params h), ?_⟩
+  unfold buildItems
+  rw [nReal_buildOut, nReal_map_copy]
+
 /-- every blueprint is a segment: it hands out exactly `nReal` offsets, every nested return address is the number the
 counter hands out next when its expansion ends, and the stack is left as found -/
 theorem blueprint_seg {bp : List Bp} (h : Blueprint bp) : ∀ c stk, wfGo c stk bp = some (c + nReal bp, stk) := by
